@@ -201,12 +201,15 @@ impl<T> Future for SendFuture<'_, T> {
                 Poll::Pending => {
                     if !this.sig.will_wake(cx.waker()) {
                         // Waker is changed and we need to update waker in the waiting list
-                        if acquire_internal(this.internal).send_signal_exists(&this.sig) {
-                            // signal is not shared with other thread yet so it's safe to
-                            // update waker locally
-                            // this.sig.register_waker(cx.waker());
+                        let internal = acquire_internal(this.internal);
+                        if internal.send_signal_exists(&this.sig) {
+                            // signal is not shared with other thread yet and can't be
+                            // while the lock is held, so it's safe to update waker locally
+                            this.sig.register_waker(cx.waker());
+                            drop(internal);
                             Poll::Pending
                         } else {
+                            drop(internal);
                             // signal is already shared, and data will be available shortly, so wait
                             // synchronously and return the result note:
                             // it's not possible safely to update waker after the signal is shared,
@@ -373,12 +376,15 @@ impl<T> Future for ReceiveFuture<'_, T> {
                         if !this.sig.will_wake(cx.waker()) {
                             // the Waker is changed and we need to update waker in the waiting
                             // list
-                            if acquire_internal(this.internal).recv_signal_exists(&this.sig) {
-                                // signal is not shared with other thread yet so it's safe
-                                // to update waker locally
+                            let internal = acquire_internal(this.internal);
+                            if internal.recv_signal_exists(&this.sig) {
+                                // signal is not shared with other thread yet and can't be
+                                // while the lock is held, so it's safe to update waker locally
                                 this.sig.register_waker(cx.waker());
+                                drop(internal);
                                 Poll::Pending
                             } else {
+                                drop(internal);
                                 // the signal is already shared, and data will be available shortly,
                                 // so wait synchronously and return the result
                                 // note: it's not possible safely to update waker after the signal
